@@ -11,7 +11,8 @@
 (* Named don't-care: an input written entirely in upper case decodes under *)
 (* BIP-173 but is not what an encoder writes; whether validate /           *)
 (* canonicalize accept it is left open (if validate accepts it, it must    *)
-(* return it unchanged).                                                   *)
+(* return it unchanged).  The same holds for a correctly checksummed       *)
+(* string with non-canonical padding (validate only).                      *)
 (***************************************************************************)
 EXTENDS Bech32, Json, IOUtils
 
@@ -40,7 +41,7 @@ Expected(e) ==
                dc |-> AllUpper(e.input) /\ e.codec # "default"]
       [] e.op = "validate" ->
            [ok |-> IF Valid(v, e.prefix, e.input) THEN "true" ELSE "false", out |-> e.input,
-            dc |-> AllUpper(e.input)]
+            dc |-> AllUpper(e.input) \/ NonCanonicalPadding(v, e.input)]
       [] e.op = "make" ->
            [ok |-> "true", out |-> e.out, dc |-> FALSE]
 
